@@ -253,10 +253,9 @@ Section Merge.
 
   Definition merge2 (in0 in1 : list row) (ch0 ch1 : list nat) (batches : list nat)
     : list (list row) * bool * m2 :=
-    match batches with
-    | [] => ([], false, mkM2 None None 0 0)   (* never initialized *)
-    | _ => run2 (m2_init (source in0 ch0) (source in1 ch1)) batches
-    end.
+    (* initialize() runs in the first ReadRows call; it only reads from the
+       sources, so running it up front is not observable *)
+    run2 (m2_init (source in0 ch0) (source in1 ch1)) batches.
 
   (** ** mergedRowReader (merge.go:740): tournament tree of losers
 
